@@ -205,8 +205,10 @@ class C06(Check):
                 res.spec_failures.append(runner.Finding("spec", "spec:C06:" + key, shown,
                                                         {"driver": l, "driver_on_minimised": drv}))
             seen_m = set()
+            tried_m = 0
             for l in lines:
-                if l.startswith("MISMATCH") and len(seen_m) < 3:
+                if l.startswith("MISMATCH") and len(seen_m) < 3 and tried_m < 6:
+                    tried_m += 1   # bounded number of shrink attempts (many mismatches minimise to the same witness)
                     kv = core.parse_kv(l)
                     case = case_of(int(kv["case"]))
                     hdr, ops = case[:1], case[1:]
